@@ -658,7 +658,7 @@ def run_spec(spec: dict, seed: int, workdir: str, timeout: float = 60.0, shuffle
                                        "ndata": sum(1 for t in port.token_list if not isinstance(t, (TerminationToken, IterationTerminationToken))),
                                        "unread": (port.queues[posixpath.join(name, pn)].qsize()
                                                   if posixpath.join(name, pn) in port.queues else len(port.token_list)),
-                                       "stream": [("T1" if t.value == Status.COMPLETED else "T0") if isinstance(t, TerminationToken)
+                                       "stream": [("T1" if t.value == Status.COMPLETED else ("T0" if t.value in (Status.FAILED, Status.CANCELLED) else "T2")) if isinstance(t, TerminationToken)
                                                   else ("i" + t.tag if isinstance(t, IterationTerminationToken) else "d" + t.tag)
                                                   for t in port.token_list]}
                                   for pn, port in st.get_input_ports().items()}}
